@@ -181,6 +181,12 @@ var frags = []*Frag{
 	{Name: "step-without-exec-has-id", Jobs: []FragJob{{ID: "{P}swe", Body: "    runs-on: ubuntu-latest\n    steps:\n      - id: first\n        Run: echo misspelt key\n      - run: echo ${{ steps.first.outputs.x }}\n      - id: first\n        run: echo same id again\n"}}},
 	// a job that needs a job nobody defines; two such jobs name the same missing id
 	{Name: "needs-undefined-shared", Jobs: []FragJob{{ID: "{P}nus", Body: "    needs: [ghost-job]\n    runs-on: ubuntu-latest\n    steps:\n      - run: echo\n"}}},
+	// job and step ids that contain dashes: "deploy" + "prod-check" and "deploy-prod" + "check" (fixed ids: each fragment is used at most once per workflow)
+	{Name: "dashed-ids-1", Jobs: []FragJob{{ID: "deploy", Body: "    runs-on: ubuntu-latest\n    steps:\n      - id: prod-check\n        run: echo one\n      - id: other\n        run: echo ${{ steps.prod-check.outputs.x }}\n"}}},
+	{Name: "dashed-ids-2", Jobs: []FragJob{{ID: "deploy-prod", Body: "    runs-on: ubuntu-latest\n    steps:\n      - id: check\n        run: echo two\n      - id: other\n        run: echo ${{ steps.check.outputs.y }}\n"}}},
+	// a matrix without rows whose include mixes an expression with literal combinations, and a job that reads github.event
+	{Name: "matrix-include-expr-then-literal", Jobs: []FragJob{{ID: "{P}mie", Body: "    strategy:\n      matrix:\n        include:\n          - ${{ github.event }}\n          - release: x\n            action: y\n    runs-on: ubuntu-latest\n    steps:\n      - run: echo ${{ matrix.release }}\n"}}},
+	{Name: "github-event-release", Jobs: []FragJob{{ID: "{P}ger", Body: "    runs-on: ubuntu-latest\n    steps:\n      - run: echo \"${{ github.event.release.tag_name }} ${{ github.event.action }} ${{ github.event.release.nope.deeper }}\"\n"}}},
 	{Name: "matrix-objfilter", Jobs: []FragJob{{ID: "{P}mof", Body: "    strategy:\n      matrix:\n        include:\n          - name: first\n            targets: [{os: linux, arch: x64}, {os: darwin, arch: arm64}]\n            nums: [1, 2]\n    runs-on: ubuntu-latest\n    steps:\n      - run: echo \"${{ join(matrix.targets.*.os, ',') }}\"\n      - run: echo \"${{ join(matrix.targets.*.arch, ',') }}\"\n      - run: echo \"${{ matrix.targets.*.nope }} ${{ matrix.nums.*.x }}\"\n      - run: echo \"${{ matrix.targets[0].os }} ${{ toJSON(matrix.targets) }}\"\n"}}},
 	{Name: "no-matrix-ref", Jobs: []FragJob{{ID: "{P}nomx", Body: "    runs-on: ubuntu-latest\n    steps:\n      - run: echo ${{ matrix.foo }}\n"}}},
 	{Name: "uses-job-with-matrix", Assets: []string{"wf-opt"}, Clean: true, Jobs: []FragJob{{ID: "{P}call", Body: "    strategy:\n      matrix:\n        foo: [1, 2]\n    uses: ./.github/workflows/reuse-opt.yml\n    with:\n      note: n${{ matrix.foo }}\n"}}},
